@@ -213,6 +213,7 @@ class TcpConn:
         self.session = None
         self.closed = False
         self.registered_once = False
+        self.session_acked = False   # the RegisterSession reply was actually read by the client
 
     # -- stream -> frames -------------------------------------------------------------------------------------------
     def feed(self, data):
@@ -233,6 +234,18 @@ class TcpConn:
             self.t.sessions.pop(self.session, None)
             self.session = None
 
+    def peer_initiated_close(self):
+        """the target closes this TCP connection itself: its session and the connections opened through it are gone"""
+        t = self.t
+        if self.session is not None:
+            for cid, c in list(t.connections.items()):
+                if c.session == self.session:
+                    t.connections.pop(cid, None)
+                    t.triads.pop(c.triad, None)
+            t.sessions.pop(self.session, None)
+            self.session = None
+        self.closed = True
+
     def reply(self, info, frame):
         t = self.t
         t.reply_index += 1
@@ -246,7 +259,11 @@ class TcpConn:
         self.sock.deliver(frame)
         conn = info.get("opened")
         if conn is not None:
-            conn.acknowledged = True   # one frame in flight: delivered == available to the client
+            # acknowledged once the client has actually read the whole Forward Open reply (a transport fault may destroy it)
+            if hasattr(self.sock, "on_drained"):
+                self.sock.on_drained = lambda c=conn: setattr(c, "acknowledged", True)
+            else:
+                conn.acknowledged = True
 
     # -- frame monitor + dispatch -------------------------------------------------------------------------------------
     def on_frame(self, frame):
@@ -287,9 +304,16 @@ class TcpConn:
             return None
         if cmd in (enc.CMD_RRDATA, enc.CMD_UNITDATA):
             if self.session is None or h["session"] != self.session:
-                key = "session-zero-after-registration" if (h["session"] == 0 and self.session) else "unregistered-session"
-                log.v("C11", key, f"{'SendRRData' if cmd == enc.CMD_RRDATA else 'SendUnitData'} carries session {h['session']:#x}; target granted {self.session if self.session is None else hex(self.session)}", frame[:32])
-                log.v("C10", "data-before-session", f"command {cmd:#x} sent with session {h['session']:#x} while the registered session is {self.session}", frame[:32])
+                name = "SendRRData" if cmd == enc.CMD_RRDATA else "SendUnitData"
+                granted = "none" if self.session is None else hex(self.session)
+                if h["session"] == 0 and (self.session is None or not self.session_acked) and cmd == enc.CMD_RRDATA:
+                    # unconnected request after a failed registration: handle 0 "before registration" is all the client has
+                    log.c("rrdata-without-session")
+                else:
+                    key = "session-zero-after-registration" if (h["session"] == 0 and self.session) else "unregistered-session"
+                    log.v("C11", key, f"{name} carries session {h['session']:#x}; target granted {granted}", frame[:32])
+                if cmd == enc.CMD_UNITDATA:
+                    log.v("C10", "connected-data-before-session", f"SendUnitData sent with session {h['session']:#x} while the registered session is {granted}", frame[:32])
                 return self.reply({"kind": "encap-error"}, enc.build_frame(cmd, h["session"], status=0x64, context=h["context"]))
             return self.data_command(cmd, h, body, frame)
         # NOP / ListServices / ListInterfaces: not used by the library; answer minimally
@@ -314,7 +338,13 @@ class TcpConn:
         self.session = t.new_session_handle()
         t.sessions[self.session] = self
         log.c("sessions-registered")
-        return self.reply({"kind": "register"}, enc.build_frame(enc.CMD_REGISTER, self.session, body, context=h["context"]))
+        self.session_acked = False
+        out = self.reply({"kind": "register"}, enc.build_frame(enc.CMD_REGISTER, self.session, body, context=h["context"]))
+        if hasattr(self.sock, "on_drained") and self.sock.rx:
+            self.sock.on_drained = lambda: setattr(self, "session_acked", True)
+        else:
+            self.session_acked = True
+        return out
 
     def data_command(self, cmd, h, body, frame):
         t, log = self.t, self.t.log
@@ -501,6 +531,8 @@ class TcpConn:
         route = tuple((s[1], s[2] if isinstance(s[2], int) else s[2].decode("ascii")) for s in rsegs)
         dev = t.device_for(route)
         if dev is None:
+            if large:
+                t.large_refused_ever = True
             return self.rr_reply(h, mr_reply(service, ST_CONN_FAIL, (0x0312,)), dict(info, unroutable=route))
         refuse = (large and (not pol.accept_large_fo or ot_size > pol.max_large_size)) or (not large and not pol.accept_std_fo)
         if refuse:
@@ -511,6 +543,8 @@ class TcpConn:
             rdata = data[10:18] + b"\x00\x00"
             return self.rr_reply(h, mr_reply(service, st, ext, rdata), dict(info, refused=True))
         if triad in t.triads:
+            if large:
+                t.large_refused_ever = True
             return self.rr_reply(h, mr_reply(service, ST_CONN_FAIL, (0x0100,), data[10:18] + b"\x00\x00"), dict(info, refused=True))
         ot_id = t.new_conn_id()
         conn = Connection(ot_id, to_req, triad, ot_size, dev, route, self.session, large)
@@ -665,5 +699,5 @@ def selftest():
     s2 = Sock()
     c2 = t.accept(s2)
     c2.feed(enc.build_frame(0x6F, 0x1234, enc.build_cpf([(0, b""), (0xB2, b"\x01\x02\x20\x01\x24\x01")])))
-    assert any(v[0] == "C10" for v in log.violations) and enc.u32(s2.take(), 8) == 0x64; n += 1
+    assert any(v[0] == "C11" for v in log.violations) and enc.u32(s2.take(), 8) == 0x64; n += 1
     return n
